@@ -7,6 +7,12 @@ EXTENDS Faidx, Json
 \* full line: 1 + 11 + 1 header bytes, 61 bytes per line, 13 + 61 * 81967 = 5 000 000)
 BigRecs == <<[hdr |-> 11, L |-> 5100007, W |-> 60], [hdr |-> 7, L |-> 3999997, W |-> 70], [hdr |-> 2, L |-> 2500000, W |-> 80],
              [hdr |-> 2, L |-> 1200001, W |-> 50], [hdr |-> 7, L |-> 130, W |-> 50]>>
+\* a second layout: six records of about 3.3 MB, so that the index is built from at least three reader chunks that each hold whole records
+\* (the offsets of a chunk's records are counted from the start of the FILE: the sizes of ALL earlier chunks are added up)
+BigRecs2 == <<[hdr |-> 2, L |-> 3300001, W |-> 60], [hdr |-> 7, L |-> 3299999, W |-> 70], [hdr |-> 2, L |-> 3300000, W |-> 80],
+              [hdr |-> 2, L |-> 3300003, W |-> 50], [hdr |-> 7, L |-> 2100000, W |-> 61], [hdr |-> 2, L |-> 77, W |-> 50]>>
+BigInit2 == recs = BigRecs2 /\ last = [op |-> "open"] /\ pos = 0 /\ nf = 0 /\ gen = 0
+BigSpec2 == BigInit2 /\ [][UNCHANGED vars]_vars
 BigInit == recs = BigRecs /\ last = [op |-> "open"] /\ pos = 0 /\ nf = 0 /\ gen = 0
 BigSpec == BigInit /\ [][UNCHANGED vars]_vars
 ReadBoundaryAtLineEnd == (1 + BigRecs[1].hdr + Len(EOL)) + (BigRecs[1].W + Len(EOL)) * ((5000000 - (1 + BigRecs[1].hdr + Len(EOL))) \div (BigRecs[1].W + Len(EOL))) = 5000000 \/ CRLF
